@@ -217,7 +217,7 @@ def _run(ctx, current, mon):
             for (i, j, k, l) in T.ALL_TUPLES:
                 new = T.canon(i, j, k, l)
                 old = T.canon(perm[i - 1] + 1, perm[j - 1] + 1, perm[k - 1] + 1, perm[l - 1] + 1)
-                err = numpy.abs(r[0][new] - canon_i[old]).max() / scale
+                err = max(numpy.abs(r[0][new] - canon_i[old]).max(), numpy.abs(r[1][new] - canon_a[old]).max()) / scale
                 ctx.maxi("axis_permutation_err/tol", err / tol)
                 if not (err <= tol):
                     bad = (new, old, err)
